@@ -165,6 +165,11 @@ func (m *Model) Run(inputs Tensors) (Tensors, error) {
 	}
 
 	for inputName, inputTensor := range inputs {
+		// A name that is mapped to no tensor is a name the caller did not supply.
+		if inputTensor == nil {
+			continue
+		}
+
 		tensors[inputName] = inputTensor
 	}
 
@@ -226,7 +231,7 @@ func (m *Model) validateShapes(inputTensors Tensors) error {
 		}
 
 		tensor, ok := inputTensors[name]
-		if !ok {
+		if !ok || tensor == nil {
 			return ErrModel("tensor: %v not found", name)
 		}
 
